@@ -28,7 +28,7 @@ ASSUMPTIONS = [
 
 def shards(tier, seed):
     q = tier == "quick"
-    out = [{"kind": "catalogue", "seed": seed}]
+    out = [{"kind": "catalogue", "seed": seed}, {"kind": "handbuilt", "seed": seed}]
     structured = {"labels": False}
     for s in shard_seeds(seed, 6, "C02a"):
         out.append({"kind": "compiled", "seed": s, "n": 50 if q else 1200, "depth": 2, "cfg": dict(structured)})
